@@ -22,7 +22,7 @@ type Variant struct {
 	More   []VariantEdit `json:"more,omitempty"`
 	Patch  string        `json:"patch,omitempty"` // corpus entry: path of a unified diff below the verif directory
 	Expect string        `json:"expect"`          // "report" | "silent"
-	Rule   string        `json:"rule"`   // rule expected to report (prefix match), for expect=report
+	Rule   string        `json:"rule"`            // rule expected to report (prefix match), for expect=report
 	Note   string        `json:"note"`
 }
 
